@@ -840,6 +840,13 @@ func (v *view) oracleC03() {
 			}
 		}
 	}
+	for _, ev := range v.ev {
+		// metadata set by a goroutine the handler left behind, after the reply
+		// has been sent: "setting headers after they were sent fails"
+		if ev.Side == 'h' && ev.G == 9 && v.r.Kind == KUnary && (ev.Op == "late-sethdr" || ev.Op == "late-sendhdr" || ev.Op == "late-settlr") && ev.RSeq != 0 && ev.Err.IsNil() {
+			v.fail("C03", "set-after-sent-succeeds|"+ev.Op, "%s by a goroutine the unary handler left behind, after the handler had returned, reported success (the reply had been sent; the metadata is lost)", ev.Op)
+		}
+	}
 	if v.hStart == nil {
 		return
 	}
